@@ -128,3 +128,179 @@ theorem shiftLoop_get (dst src n : Nat) (hn : n ≤ C) (d : Mat Nat C) (t c : Na
 
 end Striped
 end LMV
+
+namespace LMV
+namespace Striped
+
+variable {C : Nat}
+
+/-- `for c in 0..nc { data[r0][c] = g c }` -/
+def rowWrite (r0 nc : Nat) (g : Nat → Nat) (d : Mat Nat C) : Mat Nat C :=
+  (List.range nc).foldl (fun d c => d.set r0 c (g c)) d
+
+theorem rowWrite_rows (r0 nc : Nat) (g : Nat → Nat) (d : Mat Nat C) :
+    (rowWrite r0 nc g d).rows = d.rows := by
+  unfold rowWrite
+  induction nc with
+  | zero => rfl
+  | succ n ih => rw [foldl_range_succ]; simp [ih]
+
+theorem rowWrite_get (r0 nc : Nat) (hnc : nc ≤ C) (g : Nat → Nat) (d : Mat Nat C) (r c : Nat) :
+    (rowWrite r0 nc g d).get r c =
+      if r = r0 ∧ c < nc ∧ r0 < d.rows then g c else d.get r c := by
+  induction nc with
+  | zero => simp [rowWrite]
+  | succ n ih =>
+    have hstep : rowWrite r0 (n + 1) g d = (rowWrite r0 n g d).set r0 n (g n) := by
+      unfold rowWrite; rw [foldl_range_succ]
+    rw [hstep, Mat.get_set, rowWrite_rows, ih (by omega)]
+    by_cases h1 : r = r0 ∧ c = n ∧ r0 < d.rows ∧ n < C
+    · obtain ⟨ha, hb, hc, hd⟩ := h1
+      subst ha; subst hb
+      rw [if_pos ⟨rfl, rfl, hc, hd⟩, if_pos ⟨rfl, by omega, hc⟩]
+    · rw [if_neg h1]
+      by_cases h2 : r = r0 ∧ c < n ∧ r0 < d.rows
+      · rw [if_pos h2, if_pos ⟨h2.1, by omega, h2.2.2⟩]
+      · rw [if_neg h2, if_neg]
+        intro h3
+        by_cases hcn : c = n
+        · exact h1 ⟨h3.1, hcn, h3.2.2, by omega⟩
+        · exact h2 ⟨h3.1, by omega, h3.2.2⟩
+
+/-- `for k in 0..nr { for c in 0..nc { data[i + k][c] = f k c } }` -/
+def rectWrite (i nr nc : Nat) (f : Nat → Nat → Nat) (d : Mat Nat C) : Mat Nat C :=
+  (List.range nr).foldl (fun d k => rowWrite (i + k) nc (f k) d) d
+
+theorem rectWrite_rows (i nr nc : Nat) (f : Nat → Nat → Nat) (d : Mat Nat C) :
+    (rectWrite i nr nc f d).rows = d.rows := by
+  unfold rectWrite
+  induction nr with
+  | zero => rfl
+  | succ n ih => rw [foldl_range_succ, rowWrite_rows, ih]
+
+theorem rectWrite_get (i nr nc : Nat) (hnc : nc ≤ C) (f : Nat → Nat → Nat) (d : Mat Nat C)
+    (r c : Nat) :
+    (rectWrite i nr nc f d).get r c =
+      if i ≤ r ∧ r < i + nr ∧ c < nc ∧ r < d.rows then f (r - i) c else d.get r c := by
+  induction nr with
+  | zero =>
+    simp only [rectWrite, List.range_zero, List.foldl_nil]
+    rw [if_neg]; omega
+  | succ n ih =>
+    have hstep : rectWrite i (n + 1) nc f d = rowWrite (i + n) nc (f n) (rectWrite i n nc f d) := by
+      unfold rectWrite; rw [foldl_range_succ]
+    rw [hstep, rowWrite_get _ _ hnc, rectWrite_rows, ih]
+    by_cases h1 : r = i + n ∧ c < nc ∧ i + n < d.rows
+    · obtain ⟨ha, hb, hc⟩ := h1
+      rw [if_pos ⟨ha, hb, hc⟩, if_pos ⟨by omega, by omega, hb, by omega⟩]
+      have : r - i = n := by omega
+      rw [this]
+    · rw [if_neg h1]
+      by_cases h2 : i ≤ r ∧ r < i + n ∧ c < nc ∧ r < d.rows
+      · rw [if_pos h2, if_pos ⟨h2.1, by omega, h2.2.2.1, h2.2.2.2⟩]
+      · rw [if_neg h2, if_neg]
+        intro h3
+        by_cases hrn : r = i + n
+        · exact h1 ⟨hrn, h3.2.2.1, by omega⟩
+        · exact h2 ⟨h3.1, by omega, h3.2.2.1, h3.2.2.2⟩
+
+end Striped
+end LMV
+
+namespace LMV
+namespace Striped
+
+variable {C : Nat}
+
+/-- `for c in 0..nc { if p c { data[r0][c] = g c } }` -/
+def condRowWrite (r0 nc : Nat) (p : Nat → Bool) (g : Nat → Nat) (d : Mat Nat C) : Mat Nat C :=
+  (List.range nc).foldl (fun d c => if p c then d.set r0 c (g c) else d) d
+
+theorem condRowWrite_rows (r0 nc : Nat) (p : Nat → Bool) (g : Nat → Nat) (d : Mat Nat C) :
+    (condRowWrite r0 nc p g d).rows = d.rows := by
+  unfold condRowWrite
+  induction nc with
+  | zero => rfl
+  | succ n ih =>
+    rw [foldl_range_succ]
+    split
+    · simp [ih]
+    · exact ih
+
+theorem condRowWrite_get (r0 nc : Nat) (hnc : nc ≤ C) (p : Nat → Bool) (g : Nat → Nat)
+    (d : Mat Nat C) (r c : Nat) :
+    (condRowWrite r0 nc p g d).get r c =
+      if r = r0 ∧ c < nc ∧ r0 < d.rows ∧ p c = true then g c else d.get r c := by
+  induction nc with
+  | zero => simp [condRowWrite]
+  | succ n ih =>
+    have hstep : condRowWrite r0 (n + 1) p g d =
+        if p n then (condRowWrite r0 n p g d).set r0 n (g n) else condRowWrite r0 n p g d := by
+      unfold condRowWrite; rw [foldl_range_succ]
+    rw [hstep]
+    by_cases hp : p n = true
+    · rw [if_pos hp, Mat.get_set, condRowWrite_rows, ih (by omega)]
+      by_cases h1 : r = r0 ∧ c = n ∧ r0 < d.rows ∧ n < C
+      · obtain ⟨ha, hb, hc, hd⟩ := h1
+        subst ha; subst hb
+        rw [if_pos ⟨rfl, rfl, hc, hd⟩, if_pos ⟨rfl, by omega, hc, hp⟩]
+      · rw [if_neg h1]
+        by_cases h2 : r = r0 ∧ c < n ∧ r0 < d.rows ∧ p c = true
+        · rw [if_pos h2, if_pos ⟨h2.1, by omega, h2.2.2.1, h2.2.2.2⟩]
+        · rw [if_neg h2, if_neg]
+          intro h3
+          by_cases hcn : c = n
+          · exact h1 ⟨h3.1, hcn, h3.2.2.1, by omega⟩
+          · exact h2 ⟨h3.1, by omega, h3.2.2.1, h3.2.2.2⟩
+    · rw [if_neg hp, ih (by omega)]
+      by_cases h2 : r = r0 ∧ c < n ∧ r0 < d.rows ∧ p c = true
+      · rw [if_pos h2, if_pos ⟨h2.1, by omega, h2.2.2.1, h2.2.2.2⟩]
+      · rw [if_neg h2, if_neg]
+        intro h3
+        by_cases hcn : c = n
+        · rw [hcn] at h3; exact hp h3.2.2.2
+        · exact h2 ⟨h3.1, by omega, h3.2.2.1, h3.2.2.2⟩
+
+/-- `for k in 0..nr { for c in 0..nc { if p k c { data[i + k][c] = f k c } } }` -/
+def condRectWrite (i nr nc : Nat) (p : Nat → Nat → Bool) (f : Nat → Nat → Nat) (d : Mat Nat C) :
+    Mat Nat C :=
+  (List.range nr).foldl (fun d k => condRowWrite (i + k) nc (p k) (f k) d) d
+
+theorem condRectWrite_rows (i nr nc : Nat) (p : Nat → Nat → Bool) (f : Nat → Nat → Nat)
+    (d : Mat Nat C) : (condRectWrite i nr nc p f d).rows = d.rows := by
+  unfold condRectWrite
+  induction nr with
+  | zero => rfl
+  | succ n ih => rw [foldl_range_succ, condRowWrite_rows, ih]
+
+theorem condRectWrite_get (i nr nc : Nat) (hnc : nc ≤ C) (p : Nat → Nat → Bool)
+    (f : Nat → Nat → Nat) (d : Mat Nat C) (r c : Nat) :
+    (condRectWrite i nr nc p f d).get r c =
+      if i ≤ r ∧ r < i + nr ∧ c < nc ∧ r < d.rows ∧ p (r - i) c = true then f (r - i) c
+      else d.get r c := by
+  induction nr with
+  | zero =>
+    simp only [condRectWrite, List.range_zero, List.foldl_nil]
+    rw [if_neg]; omega
+  | succ n ih =>
+    have hstep : condRectWrite i (n + 1) nc p f d =
+        condRowWrite (i + n) nc (p n) (f n) (condRectWrite i n nc p f d) := by
+      unfold condRectWrite; rw [foldl_range_succ]
+    rw [hstep, condRowWrite_get _ _ hnc, condRectWrite_rows, ih]
+    by_cases h1 : r = i + n ∧ c < nc ∧ i + n < d.rows ∧ p n c = true
+    · obtain ⟨ha, hb, hc, hd⟩ := h1
+      have e : r - i = n := by omega
+      rw [if_pos ⟨ha, hb, hc, hd⟩, if_pos ⟨by omega, by omega, hb, by omega, by rw [e]; exact hd⟩, e]
+    · rw [if_neg h1]
+      by_cases h2 : i ≤ r ∧ r < i + n ∧ c < nc ∧ r < d.rows ∧ p (r - i) c = true
+      · rw [if_pos h2, if_pos ⟨h2.1, by omega, h2.2.2.1, h2.2.2.2.1, h2.2.2.2.2⟩]
+      · rw [if_neg h2, if_neg]
+        intro h3
+        by_cases hrn : r = i + n
+        · have e : r - i = n := by omega
+          rw [e] at h3
+          exact h1 ⟨hrn, h3.2.2.1, by omega, h3.2.2.2.2⟩
+        · exact h2 ⟨h3.1, by omega, h3.2.2.1, h3.2.2.2.1, h3.2.2.2.2⟩
+
+end Striped
+end LMV
